@@ -291,6 +291,80 @@ def make_e2e_harness(cfg, tw):
     return harness
 
 
+# ---------------------------------------------------------------------------
+# C07: a model object that was fitted before is fitted again -- same result as a never-used object
+
+def _mk_model(cfg, tw, D):
+    model = cfg["model"]
+    if model == "uns":
+        o = tw.mod("opfython.models.unsupervised").UnsupervisedOPF(min_k=1, max_k=cfg["max_k"])
+    elif model == "knn":
+        o = tw.mod("opfython.models.knn_supervised").KNNSupervisedOPF(max_k=cfg["max_k"])
+    else:
+        o = tw.mod("opfython.models.supervised").SupervisedOPF()
+    o.distance_fn = models.table_metric(D)
+    return o
+
+
+def _fit_rows(o, cfg, rows, labels):
+    X = symnp.SArr.from_list([[float(i)] for i in rows])
+    Y = symnp.SArr.from_list([labels[i] for i in rows], dtype="i")
+    if cfg["model"] == "knn":
+        o.fit(X, Y, X, Y)
+    else:
+        o.fit(X, Y)
+
+
+def _state(o, model):
+    g = o.subgraph
+    s = dict(cost=[nd.cost for nd in g.nodes], pred=[nd.pred for nd in g.nodes], plab=[nd.predicted_label for nd in g.nodes],
+             status=[nd.status for nd in g.nodes], order=list(g.idx_nodes)[-g.n_nodes:], n=g.n_nodes)
+    if model != "sup":
+        s.update(clus=[nd.cluster_label for nd in g.nodes], root=[nd.root for nd in g.nodes], dens=[nd.density for nd in g.nodes],
+                 best_k=g.best_k, constant=g.constant, mind=g.min_density, maxd=g.max_density)
+    if model == "uns":
+        s["n_clusters"] = g.n_clusters
+    return s
+
+
+def make_refit_harness(cfg, tw):
+    n1, n2 = cfg["n1"], cfg["n2"]
+    labels = cfg["labels"]
+
+    def harness():
+        eng = core.engine()
+        symmath.LEVEL = "full"
+        N = max(n1, n2)
+        D = models.sym_matrix(eng, N, N, symmetric=True, diag="zero", name="d")
+        off = [to_real(D[i][j]) for i in range(N) for j in range(N) if i != j]
+        eng.assume(z3.And([z3.And(t > rv(0.001), t <= 1000) for t in off]))
+        used = _mk_model(cfg, tw, D)
+        _fit_rows(used, cfg, list(range(n1)), labels)         # earlier fit on other data
+        _fit_rows(used, cfg, list(range(n2)), labels)
+        fresh = _mk_model(cfg, tw, D)
+        _fit_rows(fresh, cfg, list(range(n2)), labels)
+        return dict(D=D, used=_state(used, cfg["model"]), fresh=_state(fresh, cfg["model"]))
+    return harness
+
+
+def refit_post(eng, cfg, out, info):
+    a, b = out["used"], out["fresh"]
+    for key in b:
+        x, y = a[key], b[key]
+        if isinstance(y, list):
+            ok = len(x) == len(y)
+            eqs = [core.sym_eq(p, q) for p, q in zip(x, y)] if ok else [False]
+        else:
+            eqs = [core.sym_eq(x, y)]
+        eng.check("refit-equals-fit-of-a-never-used-model:%s" % key,
+                  z3.And([core.to_bool(e) if not isinstance(e, bool) else z3.BoolVal(e) for e in eqs] or [z3.BoolVal(True)]), info)
+
+
+def refit_payload(eng, m, cfg, out):
+    Dv = [[common.fraction_to_float(x) for x in r] for r in models.eval_matrix(eng, m, out["D"])]
+    return dict(kind="knn_refit", cfg=cfg, D=Dv)
+
+
 def e2e_payload(eng, m, cfg, out):
     Dv = [[common.fraction_to_float(x) for x in r] for r in models.eval_matrix(eng, m, out["D"])]
     return dict(kind="knn_e2e", cfg=cfg, D=Dv)
@@ -786,6 +860,7 @@ KINDS = {
     "select": (make_select_harness, select_post, select_payload),
     "e2e": (make_e2e_harness, e2e_post, e2e_payload),
     "cut": (make_cut_harness, cut_post, cut_payload),
+    "refit": (make_refit_harness, refit_post, refit_payload),
 }
 
 
